@@ -20,13 +20,19 @@ RULE = ("cases = (size, hop <= size, m blocks of exact rationals, block containe
         "objects) over signals with runs of zeros; oracle = ola_ref (the defining sum with "
         "the stated gain, in Fractions), reconstruction equality on fully covered samples, and "
         "the recorded wiring (blocks seen by the user function, stage order, kwargs reaching the "
-        "overlap-add); non-trivial = at least 2 blocks and hop < size; distinct = distinct case hash")
+        "overlap-add); samples that are not Q: plain Fractions, ints beyond 2**53, small ints and mixtures "
+        "(ola_plain, and a share of the cola / stft signals), with no window and no normalisation, or with "
+        "plain rational / integer windows, where every sample past the first size-hop must come back as the "
+        "exact sum; non-trivial = at least 2 blocks and hop < size (ola_plain: at least 2 blocks and a "
+        "sample no double can hold); distinct = distinct case hash")
 ASSUMPTIONS = [
   "samples and window values are Q (exact); the no-window normalisation gain is the double 1/ceil(size/hop) computed by the code and is taken at its exact binary value",
   "only the pure-Python strategy overlap_add.list is exercised (numpy is not installed); stft gets ola=overlap_add.list or a recording wrapper of it, or no ola= with overlap_add.default set to that recording wrapper for the duration of the case (restored afterwards)",
   "with the window / wsymm dictionaries as the window and normalisation on, the hop gain is a sum of doubles: that branch is compared with the same call given the evaluated window list; without normalisation it is compared with ola_ref on the exact values of the doubles",
   "a falsy *transform object* is not generated (the unchanged wrapper's 'transform and (lambda ...)' idiom); falsy or truth-less stage *results* are",
   "m = 0 with a given size yields the size-hop zeros of the empty sum; with a detected size the output is empty (upstream test_empty)",
+  "plain (non-Q) samples: the overlap memory starts as float zeros, so the first size-hop output samples are sums that began with 0.0 + x and are floats for int / Fraction samples; those are compared within 2**-47 of the sum of the terms' magnitudes, every later sample (all of them when hop == size) by exact equality of value; no assertion on the result's type",
+  "plain samples are combined only with what leaves them exact on the unchanged tree: no window, or a window of ints / Fractions, without normalisation; a window of Fractions with normalisation when hop divides size (the gain is then a Fraction; otherwise the code pads the hop-strided sums with float zeros); not the no-window normalisation (a double gain) and not int windows with normalisation (int / int is Python's float division)",
 ]
 
 qv = st.fractions(min_value=-3, max_value=3, max_denominator=5).map(Q)
@@ -55,6 +61,132 @@ def ola_ref(blks, size, hop, wnd, normalize):
     for i in range(size):
       out[k * hop + i] += g * w[i] * F(B[i])
   return out
+
+
+# ------------------------------------------------------------------ plain (non-Q) samples
+# Q absorbs a float operand exactly, so a needless "x * 1.0" or "x + 0.0" is invisible on Q samples.
+# A plain Fraction or an int beyond 2**53 turns into a rounded float on contact with a float.
+BIG = 2 ** 53
+SKINDS = ["Fraction", "big int", "small int", "mixed"]
+pfrac = st.fractions(min_value=-3, max_value=3, max_denominator=9)
+pbig = st.one_of(st.integers(BIG + 1, BIG + 400), st.integers(-BIG - 400, -BIG - 1),
+                 st.sampled_from([2 ** 64 + 1, -(10 ** 17 + 1), 3 ** 40, 2 ** 53 + 1, -(2 ** 53) - 1, 2 ** 80 - 1]),
+                 st.integers(-2 ** 70, 2 ** 70))
+psmall = st.integers(-5, 5)
+PSAMPLES = {"Fraction": pfrac, "big int": pbig, "small int": psmall,
+            "mixed": st.one_of(pfrac, pbig, psmall)}
+
+
+def holds_in_double(v):
+  """Whether a double can hold the (exact) value v."""
+  try:
+    return F(float(v)) == F(v)
+  except OverflowError:
+    return False
+
+
+def to_plain(q, skind, i):
+  """A Q sample of the cola / stft strategies (range [-3, 3], denominators up to 5) as a plain value:
+  skind 'Fraction' -> the same value as a fractions.Fraction (every third one moved up by 2**54 + 1/7);
+  'big int' -> an odd int beyond 2**53; 'Q' -> unchanged."""
+  if skind == "Fraction":
+    return F(q) + (F(2 ** 54) + F(1, 7) if i % 3 == 2 else 0)
+  if skind == "big int":
+    return (BIG + 1 + 2 * int(q * 60)) * (-1 if i % 4 == 3 else 1)
+  return q
+
+
+def check_plain(got, blks, size, hop, wnd, normalize, what):
+  """got against the defining sum for samples that are not Q.  The unchanged code's overlap memory
+  starts as size float zeros: the first size-hop output samples are 0.0 + B_0[n] + B_1[n-h] + ...,
+  floats whenever the samples are ints / Fractions (each step rounds); these are held to 2**-47 of the
+  sum of the magnitudes of the terms.  Every later sample saw no float at all and must equal the sum."""
+  exp = ola_ref(blks, size, hop, wnd, normalize)
+  mag = ola_ref([[abs(F(v)) for v in b] for b in blks], size, hop,
+                None if wnd is None else [abs(F(v)) for v in wnd], normalize)
+  if len(got) != len(exp):
+    raise Violation("%d samples, expected m*h+size-h = %d (m=%d size=%d hop=%d; %s)"
+                    % (len(got), len(exp), len(blks), size, hop, what))
+  s_h = size - hop
+  for n, (g, e) in enumerate(zip(got, exp)):
+    if isinstance(g, complex) or g != g:
+      raise Violation("out[%d] = %r (%s)" % (n, g, what))
+    if n < s_h:
+      ok = abs(F(g) - e) <= mag[n] / 2 ** 47
+    else:
+      ok = (g == e)
+    if not ok:
+      raise Violation("out[%d] = %r (%s), expected %s%s: the sum of the blocks' samples %r (size=%d hop=%d, %s)"
+                      % (n, g, type(g).__name__, "about " if n < s_h else "exactly ", e,
+                         [B[n - k * hop] for k, B in enumerate(blks) if 0 <= n - k * hop < size],
+                         size, hop, what))
+
+
+# ------------------------------------------------------------------ ola on plain samples
+def strat_ola_plain(tier):
+  smax = 8 if tier == "quick" else 12
+
+  def rest(k):
+    size, hop, skind = k
+    pv = PSAMPLES[skind]
+    blk = st.lists(pv, min_size=size, max_size=size)
+    return st.fixed_dictionaries(dict(
+      size=st.just(size), hop=st.just(hop), skind=st.just(skind),
+      blks=st.one_of(st.lists(blk, max_size=6), st.lists(blk, min_size=2, max_size=6)),
+      # (normalisation sums the window in hop-sized blocks that the code pads with float zeros when hop
+      #  does not divide size: the gain is then a float; exact samples stay exact only when hop | size)
+      mode=st.sampled_from(["no window, no normalise", "no window, no normalise", "no window, no normalise",
+                            "window, no normalise",
+                            "Fraction window, normalise" if size % hop == 0 else "window, no normalise"]),
+      wkind=st.sampled_from(["list", "tuple", "callable", "gen", "stream", "iter", "callable+iterable"]),
+      wv=st.lists(st.one_of(pfrac, pfrac, st.integers(-3, 3)), min_size=size, max_size=size),
+      bkind=st.sampled_from(BKINDS), detect=st.booleans(), hop_default=st.booleans()))
+  return st.integers(1, smax).flatmap(
+    lambda s: st.tuples(st.just(s), st.sampled_from(["lt", "lt", "eq"]).flatmap(
+      lambda r: st.just(s) if r == "eq" or s == 1 else st.integers(1, s - 1)),
+      st.sampled_from(SKINDS))).flatmap(rest)
+
+
+def run_ola_plain(c):
+  """No window and no normalisation: g = 1 and nothing multiplies the samples - out[n] is the plain sum
+  of the blocks' samples, also for samples that only stay exact as long as no float touches them."""
+  size, hop, blks, mode = c["size"], c["hop"], c["blks"], c["mode"]
+  m = len(blks)
+  norm = mode == "Fraction window, normalise"
+  kw = {"normalize": norm}
+  wv = None
+  if mode != "no window, no normalise":
+    wv = [F(v) for v in c["wv"]] if norm else list(c["wv"])
+    kw["wnd"] = mk_window(c["wkind"], wv)
+  detect = c["detect"]
+  if not detect:
+    kw["size"] = size
+  if not (c["hop_default"] and hop == size):
+    kw["hop"] = hop
+  bkind = "lists" if detect and c["bkind"] == "iters" else c["bkind"]
+  out = overlap_add.list(mk_blocks(bkind, blks), **kw)
+  if not isinstance(out, Stream):
+    raise Violation("overlap_add.list returned %s" % type(out).__name__)
+  got = list(out)
+  what = "%s, %s samples, %s%s" % (mode, c["skind"], "size detected" if detect else "size given",
+                                   "" if wv is None else ", window %r as %s" % (wv, c["wkind"]))
+  if detect and m == 0:
+    if got:
+      raise Violation("no blocks, detected size: output %r" % (got,))
+  else:
+    check_plain(got, blks, size, hop, wv, norm, what)
+  delicate = any(not holds_in_double(v) for b in blks for v in b)
+  labels = ["samples:" + c["skind"], mode, "blocks:" + bkind]
+  if delicate:
+    labels.append("a sample no double can hold")
+  if detect:
+    labels.append("detected size")
+  if m == 0:
+    labels.append("no blocks")
+  labels.append("overlapping" if hop < size else "hop == size")
+  if m >= 2 and hop < size and delicate:
+    labels.append("delicate samples overlap")
+  return {"nontrivial": m >= 2 and delicate, "labels": labels}
 
 
 class CallIter(object):
@@ -258,6 +390,7 @@ def strat_cola(tier):
                     st.lists(qv, min_size=hop * R + hop, max_size=40 if tier == "quick" else 80)),
       mode=st.sampled_from(["window, no normalise", "nonneg window, normalise", "no window, normalise",
                             "no window, no normalise (hop=size)"]),
+      skind=st.sampled_from(["Q", "Q", "Fraction", "big int"]),
       via=st.sampled_from(["Stream.blocks", "blocks()", "lists"])))
   return st.tuples(st.integers(1, 4), st.sampled_from([1, 2, 2, 3, 3, 4])).flatmap(rest)
 
@@ -266,6 +399,11 @@ def run_cola(c):
   hop, R, sig = c["hop"], c["R"], c["sig"]
   size = hop * R
   mode = c["mode"]
+  # plain samples wherever no float is due: a fully covered sample lies past the first size-hop, and
+  # the windows below are plain rationals then (the no-window normalisation gain is a double: Q only)
+  skind = c.get("skind", "Q") if mode != "no window, normalise" else "Q"
+  sig = [to_plain(v, skind, i) for i, v in enumerate(sig)]
+  pl = (lambda w: [F(v) for v in w]) if skind != "Q" else (lambda w: w)
   if mode == "no window, no normalise (hop=size)":
     hop, R = size, 1
   if c["via"] == "Stream.blocks":
@@ -276,10 +414,10 @@ def run_cola(c):
     blk = [list(b) for b in blocks(list(sig), size=size, hop=hop)]
   scale = F(1)
   if mode == "window, no normalise":
-    w = cola_window(c["segs"], hop, False)
+    w = pl(cola_window(c["segs"], hop, False))
     out = overlap_add.list(blk, size=size, hop=hop, wnd=w, normalize=False)
   elif mode == "nonneg window, normalise":
-    w = cola_window(c["segs"], hop, True)
+    w = pl(cola_window(c["segs"], hop, True))
     out = overlap_add.list(blk, size=size, hop=hop, wnd=w, normalize=True)
   elif mode == "no window, normalise":
     out = overlap_add.list(blk, size=size, hop=hop)
@@ -303,8 +441,10 @@ def run_cola(c):
       if not (got[n] == scale * F(sig[n])):
         raise Violation("sample %d reconstructed as %r, signal has %r (scale %r; size=%d hop=%d mode=%s)"
                         % (n, got[n], sig[n], scale, size, hop, mode))
-  return {"nontrivial": nb >= 2 and R >= 2 and covered >= 2,
-          "labels": [mode, "R=%d" % R, "via:" + c["via"]]}
+  labels = [mode, "R=%d" % R, "via:" + c["via"], "samples:" + skind]
+  if skind != "Q" and mode.startswith("no window, no normalise") and covered:
+    labels.append("plain samples, no window, no normalise")
+  return {"nontrivial": nb >= 2 and R >= 2 and covered >= 2, "labels": labels}
 
 
 # ------------------------------------------------------------------ STFT wrapper
@@ -322,6 +462,7 @@ def strat_stft(tier):
       style=st.sampled_from(["direct", "decorator", "partial", "partial2"]),
       split=st.lists(st.booleans(), min_size=8, max_size=8),
       stages=st.sampled_from(["none", "reverse pair", "scale pair", "all four", "before only"]),
+      skind=st.sampled_from(["Q", "Q", "Fraction", "big int"]),
       hop_given=st.booleans()))
   return st.tuples(st.integers(1, 3), st.sampled_from([1, 2, 2, 3, 3])).flatmap(rest)
 
@@ -338,6 +479,15 @@ def _run_stft(c):
   hop, R, sig = c["hop"], c["R"], c["sig"]
   size = hop * R
   w = cola_window(c["segs"], hop, False)
+  # plain signals (Fractions, ints beyond 2**53) get a plain rational window: nothing in the wrapper or
+  # in the overlap-add without normalisation brings in a float, except the float zeros the overlap
+  # memory starts with (first size-hop samples) and the zero padding of the last block
+  skind = c.get("skind", "Q")
+  if skind != "Q":
+    w = [F(v) for v in w]
+    sig = [to_plain(v, skind, i) for i, v in enumerate(sig)]
+    if skind == "big int" and c["stages"] in ("scale pair", "all four"):
+      sig = [F(v) for v in sig]       # the 'after' stage halves: int / 2 is Python's float division
   log = []
   seen = []
   ola_kw = []
@@ -512,9 +662,13 @@ def _run_stft(c):
           raise Violation("identity STFT gives %r at %d, input %r (size=%d hop=%d window at %s, style %s)"
                           % (got[n], n, sig[n], size, hop, c["window_at"], style))
   else:
-    exp = ola_ref([[factor * v for v in b] for b in blks], size, hop, None, False)
-    if got != exp:
-      raise Violation("windowless STFT output %r, expected %r" % (got, exp))
+    fblks = [[factor * v for v in b] for b in blks]
+    if skind != "Q":
+      check_plain(got, fblks, size, hop, None, False, "windowless STFT of %s samples, style %s" % (skind, style))
+    else:
+      exp = ola_ref(fblks, size, hop, None, False)
+      if got != exp:
+        raise Violation("windowless STFT output %r, expected %r" % (got, exp))
   # --- the same processor is reusable: a second call with another window (given as a
   #     different callable, same size) must be windowed by *that* window
   labels_extra = []
@@ -539,6 +693,7 @@ def _run_stft(c):
     labels_extra.append("processor reused with another window")
   return {"nontrivial": nb >= 2 and R >= 2,
           "labels": labels_extra + ["style:" + style, "window at " + c["window_at"], "stages:" + st_, "overlap-add by " + via,
+                     "samples:" + skind,
                      "call-time options" if call else "build-time only"] + (["call-time override"] if override else [])}
 
 
@@ -770,15 +925,24 @@ CLAUSES = [
                  "normalize:True": .15, "window:callable+iterable": .03,
                  "window is a strategy dictionary": .06},
          doc="overlap_add.list == ola_ref: length m*h+size-h and every sample of the windowed hop-shifted sum with the stated gain"),
+  Clause("ola_plain", strat_ola_plain, run_ola_plain, quick=1500, thorough=25000,
+         floors={"samples:Fraction": .08, "samples:big int": .08, "samples:mixed": .08,
+                 "no window, no normalise": .2, "window, no normalise": .07, "Fraction window, normalise": .04,
+                 "a sample no double can hold": .2, "hop == size": .12, "delicate samples overlap": .1,
+                 "detected size": .12},
+         doc="samples that are not Q (plain Fractions, ints beyond 2**53, small ints, mixtures), without window and "
+             "normalisation or with plain rational windows: every sample past the float-zero start of the overlap "
+             "memory is exactly the sum of the blocks' samples, the first size-hop are within rounding of it"),
   Clause("refusals", strat_bad, run_bad, quick=300, thorough=3000,
          doc="wrong window length / wrong block length -> ValueError; non-iterable window -> TypeError"),
   Clause("cola", strat_cola, run_cola, quick=1200, thorough=20000,
-         floors={"window, no normalise": .1, "nonneg window, normalise": .1},
+         floors={"window, no normalise": .1, "nonneg window, normalise": .1, "samples:Fraction": .04,
+                 "samples:big int": .05, "plain samples, no window, no normalise": .025},
          doc="blocking then overlap-adding with a sum-to-one window returns the signal on fully covered samples"),
   Clause("stft", strat_stft, run_stft, quick=1200, thorough=20000,
          floors={"style:decorator": .1, "style:partial": .1, "call-time options": .3, "window at analysis": .2,
                  "call-time override": .05, "overlap-add by default set before build": .08,
-                 "overlap-add by default set after build": .08},
+                 "overlap-add by default set after build": .08, "samples:Fraction": .05, "samples:big int": .05},
          doc="stft wiring (window x block reaches the user function, stage order, ola_ options stripped and passed) and identity reconstruction"),
   Clause("stft_stage_values", strat_values, run_values, quick=1200, thorough=15000,
          floors={"a stage result is falsy": .15, "falsy because of the data (zero / empty)": .08,
